@@ -153,6 +153,8 @@ func (tg *TCPGroup) worker() {
 			tg.acceptCh <- c
 		})
 		if err != nil {
+			// the group was closed while handing the connection off, nobody will serve it
+			c.Close()
 			return
 		}
 	}
